@@ -71,7 +71,8 @@ def slyLoop (c : SubCtx) :
 /-- fuel of `slyLoop` entered at year `y`.  `inc` is `rr->inter` or `inter_past(rem, rr->inter)`, a multiple of
 `rr->inter ≥ 1` below `rem + rr->inter` (`rem ≤ 86400`, no wrap).  As long as `S + inc` does not wrap, a round moves the
 candidate `y-m-d H:M:S` forward by `inc ≥ 1` seconds (the carries keep the second count), and a round entered with
-`y > 2099` leaves the loop.  `S + inc` wraps only for `inc ≥ 2^32 - 63`; then `S` shrinks by at least 1, the rest stays,
+`y > 2099` leaves the loop.  `S + inc` wraps only for `inc ≥ 2^32 - 63` (then `rr->inter > 86400 ≥ rem` and `inc` is
+`rr->inter` in every round); then `S` shrinks by at least 1, the rest stays,
 and after at most 63 such rounds in a row (`S` is a 6-bit field) the sum no longer wraps and the candidate leaps forward
 by more than 2^32 - 64 seconds (136 years): a run of at most 64 rounds gains more than 64 seconds.  So there are at
 most `(2100 - y) * 366 * 86400 + 65` rounds. -/
